@@ -126,7 +126,7 @@ def main():
             if only and only not in m['id']:
                 continue
             try:
-                saved = apply_diff(d, m['diff']) if m.get('diff') else apply(d, m)
+                saved = apply_diff(d, m['diff'] if os.path.isabs(m['diff']) else os.path.join(VERIF, m['diff'])) if m.get('diff') else apply(d, m)
             except RuntimeError as e:
                 print('SKIP  %s' % e)
                 results.append({'id': m['id'], 'kind': kind, 'status': 'anchor-missing'})
